@@ -244,6 +244,11 @@ def check(case, ctx):
     except proj.Ambiguous:
         ctx.count('projection_ambiguous')
         return
+    if not _all_finite(jproj):
+        # a sweeten hook put a non-finite float into the output: outside the
+        # property's precondition (finite floats)
+        ctx.count('nonfinite_float_in_projection_skipped')
+        return
     desc = lambda: 'indent=%r ensure_ascii=%r\n  value: %s\n  model: %s' % (
         ind, asc, canon(value), spec)
     kw = {}
@@ -382,6 +387,16 @@ def check(case, ctx):
     if not strict_eq(back, value):
         ctx.finding('roundtrip', 'model_roundtrip_differs',
                     'load(dumps_json(v)) = %s\n  text: %r\n  %s' % (canon(back), text, desc()))
+
+
+def _all_finite(p):
+    if isinstance(p, dict):
+        return all(_all_finite(k) and _all_finite(v) for k, v in p.items())
+    if isinstance(p, list):
+        return all(_all_finite(x) for x in p)
+    if isinstance(p, float):
+        return math.isfinite(p)
+    return True
 
 
 def _undict(p):
